@@ -78,6 +78,14 @@ CLAIMED = {
         note="floats modelled as reals; T<=3 (quick) / 5 (thorough), N<=2/3; timesteps concrete, dt symbolic; lag-zero norm "
              "assumed non-zero.",
         ref="DESIGN.md C14"),
+    "C06": dict(
+        text="Bounded symbolic model checking of Dynamics.relaxation / LogDynamics.relaxation / sq4 / cage_relative: all positions, "
+             "diameters, cutoff factor, wavenumber and dt symbolic; every row decided equal to the origin-averaged definitions "
+             "(isf, Qt, chi4, msd, alpha2, time axis), selections, cage-relative displacements with per-frame neighbour lists, "
+             "wrapped == unwrapped under integer images, S4 = structure factor of the mobile subset.",
+        note="floats modelled as reals; F<=3, N<=3; cos through a structural cache with congruence instances; rint lemmas for the "
+             "wrapped run; selections concrete and of constant size; 0/0 cases excluded by assumption.",
+        ref="DESIGN.md C06"),
 }
 
 NOT_APPLICABLE = {
